@@ -14,16 +14,33 @@ def modelled : List String := [
   "babyjub.Point.Set",
   "babyjub.Signature.Decompress",
   "babyjub.SignatureComp.Decompress",
+  "tree.<layout>@babyjub",
+  "tree.<layout>@constants",
+  "tree.<layout>@ff",
+  "tree.<layout>@root",
+  "tree.<layout>@utils",
   "babyjub.<decls>@babyjub.go",
   "babyjub.<decls>@eddsa.go",
-  "babyjub.<decls>@helpers.go"
+  "babyjub.<decls>@helpers.go",
+  "constants.<decls>@constants.go",
+  "ff.<asm>@element_mul_adx_amd64.s",
+  "ff.<asm>@element_mul_amd64.s",
+  "ff.<asm>@element_ops_amd64.s",
+  "ff.<decls>@arith.go",
+  "ff.<decls>@asm.go",
+  "ff.<decls>@asm_noadx.go",
+  "ff.<decls>@doc.go",
+  "ff.<decls>@element.go",
+  "ff.<decls>@element_ops_amd64.go",
+  "ff.<decls>@element_ops_noasm.go",
+  "utils.<decls>@utils.go"
 ]
 
 theorem source_pinned : modelled.all (same I3.Gen.fingerprints) = true := by decide +kernel
 
-theorem function_set_pinned : (["babyjub."] : List String).all (sameKeys I3.Gen.fingerprints) = true := by
+theorem function_set_pinned : (["babyjub.", "constants.", "ff.", "utils."] : List String).all (sameKeys I3.Gen.fingerprints) = true := by
   decide +kernel
 
-theorem modelled_nonempty : 8 = modelled.length := by decide
+theorem modelled_nonempty : 25 = modelled.length := by decide
 
 end I3.Props.C19
